@@ -76,7 +76,32 @@ def check_params(case):
 
 FOLD = ['1 + 2 * 3', '7 / 2', '7 % 0', '(2 - 5) * 4', "length('abc') + 1", "upper('ab')", '1 = 1 AND NULL', 'NOT NULL', '2 BETWEEN 1 AND 3',
         'coalesce(NULL, 4)', '-3 + 1', '1.5 * 2', '1 / 0', "substr('hello', 1, 3)", 'date_add(2024-01-31, 1)', '2024-03-01 - 2024-02-01',
-        'abs(-2.5)', 'safediv(1.0, 0)', "int('12') + 1", "str(12)", 'year(2024-05-06)', "'a' ~ 'A'"]
+        'abs(-2.5)', 'safediv(1.0, 0)', "int('12') + 1", "str(12)", 'year(2024-05-06)', "'a' ~ 'A'",
+        # boolean connectives over constants: a constant NULL is neither true nor false
+        '1 = 2 OR NULL', 'NULL OR 1 = 2', '1 = 1 OR NULL', 'NULL AND 1 = 2', '1 = 2 OR NULL OR 1 = 3', 'NOT (1 = 2 OR NULL)', 'coalesce(1 = 2 OR NULL, 1 = 1)', '(NULL OR 1 = 2) IS NULL', 'NULL IS NULL', 'NULL IS NOT NULL',
+        '(7 % 0) IS NULL', 'NOT (1 / 0 > 0)']
+
+
+# constant boolean expressions with the value the truth tables of the statement give them (folding must not change it)
+CONST_TRUTH = [('1 = 2 OR NULL', None), ('NULL OR 1 = 2', None), ('1 = 1 OR NULL', True), ('NULL OR 1 = 1', True), ('NULL AND 1 = 2', None), ('1 = 2 AND NULL', False), ('1 = 1 AND NULL', None),
+               ('NOT NULL', True), ('NULL IS NULL', True), ('NULL IS NOT NULL', False), ('(1 = 2 OR NULL) IS NULL', True), ('coalesce(1 = 2 OR NULL, 1 = 1)', True), ('1 = 2 OR NULL OR 1 = 3', None),
+               ('(7 % 0) IS NULL', True), ('NOT (1 / 0 > 0)', True), ('coalesce(NULL, NOT NULL)', True)]
+
+
+def check_const_truth(res):
+    c = conn()
+    for expr, want in CONST_TRUTH:
+        res.case(('const-truth', expr))
+        for q, params in ((f'SELECT {expr}, a FROM #t', None), (f"SELECT {expr.replace('NULL', '%s')}, a FROM #t", tuple(None for _ in range(expr.count('NULL'))))):
+            try:
+                got = c.execute(q, params).fetchall()
+            except beanquery.ProgrammingError:
+                continue
+            except Exception as e:  # noqa
+                res.violation('h09:const-truth:' + expr, 'constant expressions evaluate', {'query': q}, f'{type(e).__name__}: {e}', want)
+                continue
+            if any(r[0] is not want for r in got):
+                res.violation('h09:const-truth:' + expr, 'a constant (or parameter) operand is evaluated by the same truth tables as a column holding it', {'query': q, 'params': repr(params)}, got[:1], want)
 
 
 def check_fold(expr):
@@ -135,6 +160,11 @@ STMTS = [
     ('SELECT str(%s), a FROM #t LIMIT 1', [(Decimal('7.1'),), (Decimal('7.10'),), (Decimal('-0'),), (Decimal('0'),)]),
     ('SELECT str(2.5), abs(2.5) FROM #t LIMIT 1', [None]),
     ('SELECT str(2.50), abs(2.50) FROM #t LIMIT 1', [None]),
+    # the same pattern text used by case-insensitive matching (~) and by the case-sensitive functions (grep, subst, findfirst)
+    ("SELECT a FROM #t WHERE b ~ 'XY'", [None]), ("SELECT grep('XY', b), grep('xy', b) FROM #t", [None]), ("SELECT a FROM #t WHERE b ~ 'hell'", [None]),
+    ("SELECT subst('HELL', '-', b), grep('hell', b) FROM #t", [None]), ("SELECT a, b ~ %s FROM #t", [('PQ',), ('pq',)]), ("SELECT grep(%s, b) FROM #t", [('PQ',), ('pq',)]),
+    # boolean parameters
+    ('SELECT %s OR %s, a FROM #t LIMIT 2', [(False, None), (None, False), (True, None)]), ('SELECT a FROM #t WHERE (a > %s OR %s) IS NULL', [(100, None), (0, None)]),
 ]
 _PRISTINE = {}
 
@@ -285,6 +315,7 @@ def run(tier, seed):
         if bad:
             res.violation('h09:fold:' + e, bad[0], bad[1], bad[2], bad[3])
     pristine_results()
+    check_const_truth(res)
     steps = [(si, pi, mode) for si, (t, pl) in enumerate(STMTS) for pi in range(len(pl)) for mode in ('text', 'ast')]
     hists = [[s] for s in steps] + [list(h) for h in itertools.product(steps, repeat=2)]
     rng = random.Random(seed)
